@@ -766,4 +766,7 @@ def run(P, R, tier):
     _c19.comparators(P, R, 'C08.ARITH.1')
     # a long line is logged through the growing buffer: the argument list it is formatted from must still be intact
     rules.va_list_once(P, R, 'C08.MPT.6')
+    # the bounded copies above go through strlcpy: where the program supplies its own, it keeps its promise
+    from .. import bnd as _bndS
+    _bndS.fallback_strlcpy(P, R, 'C08.BND.5')
     return EXPLANATION, ASSUMPTIONS
